@@ -178,14 +178,15 @@ def normVector (v : V3 α) : V3 α :=
   let n := V3.norm v
   if isZero n then v else V3.sdiv v n
 
-/-- `point_to_circle(point, center, radius, normal, epsilon)`; branch ids: 0 general
-(`sqr_len >= epsilon`), 1 on (or within `sqrt epsilon` of) the axis. -/
-def pointToCircle (p c : V3 α) (radius : α) (n : V3 α) (epsilon : α) : Except Err (PtRes α) :=
+/-- body shared by the current and the pre-fix `point_to_circle`: `thr` is the threshold the
+squared in-plane offset `sqr_len` is compared with.  Branch ids: 0 general (`sqr_len >= thr`),
+1 treated as lying on the axis. -/
+def pointToCircleThr (p c : V3 α) (radius : α) (n : V3 α) (thr : α) : Except Err (PtRes α) :=
   let diff := p - c
   let dtp := V3.dot diff n
   let dip := diff - dtp * n
   let sqrLen := V3.dot dip dip
-  if epsilon ≤ sqrLen then
+  if thr ≤ sqrLen then
     let s := sqrt sqrLen
     if isZero s then .error .divZero else
     let cp := c + (radius / s) * dip
@@ -195,6 +196,17 @@ def pointToCircle (p c : V3 α) (radius : α) (n : V3 α) (epsilon : α) : Excep
     let pd := normVector perp
     let cp := c + radius * pd
     .ok ⟨1, sqrt (radius * radius + dtp * dtp), cp⟩
+
+/-- `point_to_circle(point, center, radius, normal, epsilon)` as of /repo commit 0e4a1a6:
+`if sqr_len >= epsilon * epsilon:` -/
+def pointToCircle (p c : V3 α) (radius : α) (n : V3 α) (epsilon : α) : Except Err (PtRes α) :=
+  pointToCircleThr p c radius n (epsilon * epsilon)
+
+/-- the code before that fix: `if sqr_len >= epsilon:` (a squared length compared with a length
+tolerance, so every point within `sqrt epsilon = 1e-3` of the axis counted as on the axis) -/
+def pointToCircle_asIs_before_fix (p c : V3 α) (radius : α) (n : V3 α) (epsilon : α) :
+    Except Err (PtRes α) :=
+  pointToCircleThr p c radius n epsilon
 
 /-! ### helpers of the line / segment functions -/
 
